@@ -35,8 +35,8 @@ def exprCst (regs : Regs) : AST → CST
   | .binary op l r => .bin false op (pwrap (needParenLeft regs op l) (exprCst regs l)) (pwrap (needParenRight regs op r) (exprCst regs r))
   | .postfix l op => .postfix (pwrap (needParenPostfix l) (exprCst regs l)) op
   | .ternary c a b => .tern (pwrap (isTernary c) (exprCst regs c)) (exprCst regs a) (exprCst regs b)
-  | .list xs => .list (exprCstList regs xs)
-  | .map kvs => .map (exprCstMap regs kvs)
+  | .list xs => .list (exprCstList regs xs) false
+  | .map kvs => .map (exprCstMap regs kvs) false
   | .stmt _ => .atom (.ref [])
   | .none => .atom (.ref [])
 def exprCstList (regs : Regs) : List AST → CList
@@ -118,8 +118,8 @@ theorem expr_cst_canonical (regs : Regs) (tb : TableOK regs) : ∀ t : AST, Prod
   | .lit (.str s), _ => trivial
   | .ref n, _ => trivial
   | .call n args, h => by simp only [exprCst, Canon]; exact expr_cst_canonicalList regs tb args h
-  | .list xs, h => by simp only [exprCst, Canon]; exact expr_cst_canonicalList regs tb xs h
-  | .map kvs, h => by simp only [exprCst, Canon]; exact expr_cst_canonicalMap regs tb kvs h
+  | .list xs, h => by simp only [exprCst, Canon]; exact ⟨expr_cst_canonicalList regs tb xs h, fun e => by cases e⟩
+  | .map kvs, h => by simp only [exprCst, Canon]; exact ⟨expr_cst_canonicalMap regs tb kvs h, fun e => by cases e⟩
   | .stmt _, h => h.elim
   | .none, h => h.elim
   | .unary op rhs, h => by
@@ -244,8 +244,8 @@ def cstText : CST → Text
   | .unary o c => o ++ (' ' :: cstText c)
   | .postfix c o => cstText c ++ (' ' :: o)
   | .call n args => n ++ ('(' :: (joinWith [','] (cstTextList args) ++ [')']))
-  | .list xs => '[' :: (joinWith [','] (cstTextList xs) ++ [']'])
-  | .map kvs => '{' :: (joinWith [','] (cstTextMap kvs) ++ ['}'])
+  | .list xs tr => '[' :: (joinWith [','] (cstTextList xs) ++ ((if tr then [','] else []) ++ [']']))
+  | .map kvs tr => '{' :: (joinWith [','] (cstTextMap kvs) ++ ((if tr then [','] else []) ++ ['}']))
   | .bin nt o l r => cstText l ++ (' ' :: ((if nt then ['n', 'o', 't', ' '] else []) ++ (o ++ (' ' :: cstText r))))
   | .tern c a b => cstText c ++ ([' ', '?', ' '] ++ (cstText a ++ ([' ', ':', ' '] ++ cstText b)))
 def cstTextList : CList → List Text
@@ -268,8 +268,8 @@ theorem expr_text (regs : Regs) : ∀ t : AST, Producible regs t → expr regs t
   | .lit (.str s), _ => by simp [expr, exprCst, cstText]
   | .ref n, _ => by simp [expr, exprCst, cstText]
   | .call n args, h => by simp only [expr, exprCst, cstText, expr_textList regs args h]
-  | .list xs, h => by simp only [expr, exprCst, cstText, expr_textList regs xs h]
-  | .map kvs, h => by simp only [expr, exprCst, cstText, expr_textMap regs kvs h]
+  | .list xs, h => by simp only [expr, exprCst, cstText, expr_textList regs xs h]; simp
+  | .map kvs, h => by simp only [expr, exprCst, cstText, expr_textMap regs kvs h]; simp
   | .unary op rhs, h => by simp only [expr, exprCst, cstText, cstText_pwrap, expr_text regs rhs h.2]
   | .postfix l op, h => by simp only [expr, exprCst, cstText, cstText_pwrap, expr_text regs l h.2]
   | .binary op l r, h => by
